@@ -201,9 +201,10 @@ def _i_bip85_entropy(key, xprv, path):
 
 
 def _i_bip85_bip39(key, words, xprv, lang, index):
-    li = bip85._LANGUAGE_INDEXES.get(lang)
-    if li is not None and int(words) in bip85._ENTROPY_BYTES:
-        if _child_key(xprv, f"m/{bip85._PURPOSE}h/39h/{li}h/{words}h/{index}h") != unhx(key):
+    li = BIP85_LANGUAGE_TABLE.get(lang)
+    if li is not None and int(words) in (12, 15, 18, 21, 24):
+        # the key in the line is the child at the path THE BIP defines (the model hashes that key)
+        if _child_key(xprv, f"m/83696968h/39h/{li}h/{words}h/{index}h") != unhx(key):
             return "bad-line"
     return "ok " + nats(indexes_from_mnemonic(bip85.mnemonic_from_root_key(xprv, int(words), lang, int(index)), lang))
 
@@ -300,7 +301,19 @@ def generate_line(rng, secret, pw, ext, e, gt, grp):
             "".join(" " + hx(r) for r in group_rnd) + "".join(" " + t for t in toks))
 
 
+def _i_bip85_path(lang, words, index, xprv):
+    """btclib's derivation path, observed through its behaviour: the language code whose path reproduces the sentence."""
+    got = bip85.mnemonic_from_root_key(xprv, int(words), lang, int(index)).split()
+    nbytes = int(words) * 4 // 3
+    codes = [c for c in range(0, 12)
+             if _ref_bip39_words(_bip85_entropy(xprv, f"m/83696968h/39h/{c}h/{words}h/{index}h")[:nbytes], lang) == got]
+    if len(codes) != 1:
+        return f"ok no-single-language-code:{codes}"
+    return f"ok 83696968,39,{codes[0]},{words},{index}"
+
+
 IMPL = {
+    "bip85.path": _i_bip85_path,
     "gf.mul": _i_gf_mul, "gf.div": _i_gf_div, "slip39.interp": _i_interp, "slip39.split": _i_split,
     "slip39.recover": _i_recover, "slip39.polymod": _i_polymod, "slip39.checksum": _i_checksum,
     "slip39.verify": _i_verify, "slip39.encode": _i_encode, "slip39.decode": _i_decode,
@@ -457,7 +470,10 @@ def _o_bip39_substitution(w):
 
 def _o_electrum_roundtrip(w):
     lang, typ, e = w["lang"], w["type"], int(w["e"])
-    m = electrum.mnemonic_from_entropy(typ, e, lang)
+    try:
+        m = electrum.mnemonic_from_entropy(typ, e, lang)
+    except BTClibValueError as ex:
+        return False, f"{lang}: no '{typ}' seed can be generated from entropy {e}: {ex}"
     ver, norm = electrum.version_from_mnemonic(m)
     if ver != typ:
         return False, f"{lang}: asked {typ}, sentence reads {ver}"
@@ -476,6 +492,68 @@ def _o_electrum_roundtrip(w):
     if electrum._seed_from_mnemonic(m, pw) != (typ, want):
         return False, f"{lang}: seed differs from PBKDF2 of the normalised sentence"
     return True, f"{lang} {typ}"
+
+
+# the scripts of the word lists electrum reads as CJK (hiragana/katakana, CJK ideographs, hangul, fullwidth forms)
+_REF_CJK = ((0x3040, 0x30FF), (0x4E00, 0x9FFF), (0x3400, 0x4DBF), (0xF900, 0xFAFF), (0xAC00, 0xD7AF),
+            (0x1100, 0x11FF), (0x3130, 0x318F), (0xFF00, 0xFFEF))
+
+
+def _ref_is_cjk(c):
+    return any(lo <= ord(c) <= hi for lo, hi in _REF_CJK)
+
+
+def ref_electrum_normalize(text: str) -> str:
+    """Electrum's normalize_text, rewritten: NFKD, lower-case, combining marks dropped, whitespace collapsed, and the
+    whitespace between two CJK characters removed."""
+    t = unicodedata.normalize("NFKD", text).lower()
+    t = "".join(c for c in t if not unicodedata.combining(c))
+    t = " ".join(t.split())
+    return "".join(c for i, c in enumerate(t) if not (c == " " and _ref_is_cjk(t[i - 1]) and _ref_is_cjk(t[i + 1])))
+
+
+def ref_electrum_type(m: str) -> str:
+    """Electrum's seed_type for a sentence that is not an old-style seed: the word count is taken BEFORE the
+    normalisation (which joins CJK words), the prefix from HMAC-SHA512("Seed version", normalised sentence)."""
+    n = len(m.split())
+    sv = hmac.new(b"Seed version", ref_electrum_normalize(m).encode(), hashlib.sha512).hexdigest()
+    if sv.startswith("01"):
+        return "standard"
+    if sv.startswith("100"):
+        return "segwit"
+    if sv.startswith("101") and (n == 12 or n >= 20):
+        return "2fa"
+    if sv.startswith("102"):
+        return "2fa_segwit"
+    return ""
+
+
+def _o_electrum_version(w):
+    """version, entropy and seed of a sentence against independent computations; `m` is written with the given
+    separator (plain or ideographic space)."""
+    m, lang = w["m"], w["lang"]
+    want = ref_electrum_type(m)
+    try:
+        got, norm = electrum.version_from_mnemonic(m)
+    except BTClibValueError as ex:
+        if want:
+            return False, f"{lang}: a {len(m.split())}-word '{want}' seed is refused: {ex}  [{m}]"
+        return True, "no version, refused"
+    if got != want:
+        return False, f"{lang}: '{m}' is read as '{got}', Electrum's rule says '{want or 'no seed'}'"
+    if norm != ref_electrum_normalize(m):
+        return False, f"{lang}: normalised sentence differs"
+    wi = {x: i for i, x in enumerate(electrum.ELECTRUM_WORDLISTS.wordlist(lang))}
+    idx = [wi[unicodedata.normalize("NFKD", x)] for x in m.split()]
+    v = sum(i * len(wi) ** k for k, i in enumerate(idx))
+    if int(electrum.entropy_from_mnemonic(m, lang), 2) != v:
+        return False, f"{lang}: entropy of '{m}' is not the base-{len(wi)} number its words spell"
+    seed = hashlib.pbkdf2_hmac("sha512", ref_electrum_normalize(m).encode(), b"electrum", 2048, 64)
+    if electrum._seed_from_mnemonic(m, "") != (want, seed):
+        return False, f"{lang}: seed of '{m}' differs from PBKDF2 of the normalised sentence"
+    if want in ("standard", "segwit") and not electrum.mxprv_from_mnemonic(m):
+        return False, "no master key"
+    return True, f"{lang} {want}"
 
 
 def _o_slip39_set(w):
@@ -598,12 +676,86 @@ def _o_bip85(w):
         return False, f"entropy of {path} is not HMAC-SHA512('bip-entropy-from-k', k)"
     if "words" in w:
         m = bip85.mnemonic_from_root_key(xprv, w["words"], w["lang"], w["index"])
-        li = bip85._LANGUAGE_INDEXES[w["lang"]]
+        li = BIP85_LANGUAGE_TABLE[w["lang"]]
         p = f"m/83696968h/39h/{li}h/{w['words']}h/{w['index']}h"
         e = hmac.new(b"bip-entropy-from-k", _child_key(xprv, p), hashlib.sha512).digest()[: w["words"] * 4 // 3]
         if m != bip39.mnemonic_from_entropy(e, w["lang"]) or bip39.entropy_from_mnemonic(m, w["lang"]) != _bits_of(e):
             return False, f"bip85 mnemonic ({w['words']} words, {w['lang']}) is not BIP39 of the truncated HMAC"
     return True, path
+
+
+# BIP85's Language Table, copied from the BIP text (bip-0085.mediawiki, "BIP39" application), keyed by the word-list
+# keys btclib uses: Chinese (Simplified) is 4', Chinese (Traditional) 5'.
+BIP85_LANGUAGE_TABLE = {"en": 0, "ja": 1, "ko": 2, "es": 3, "zh": 4, "zh_tw": 5, "fr": 6, "it": 7, "cs": 8, "pt": 9}
+_B58 = "123456789ABCDEFGHJKLMNPQRSTUVWXYZabcdefghijkmnopqrstuvwxyz"
+
+
+def _b58check(payload: bytes) -> str:
+    data = payload + hashlib.sha256(hashlib.sha256(payload).digest()).digest()[:4]
+    n = int.from_bytes(data, "big")
+    out = ""
+    while n:
+        n, r = divmod(n, 58)
+        out = _B58[r] + out
+    return "1" * (len(data) - len(data.lstrip(b"\x00"))) + out
+
+
+def _bip85_entropy(xprv, path):
+    return hmac.new(b"bip-entropy-from-k", _child_key(xprv, path), hashlib.sha512).digest()
+
+
+def _ref_bip39_words(e: bytes, lang: str):
+    cs = len(e) // 4
+    v = (int.from_bytes(e, "big") << cs) | (hashlib.sha256(e).digest()[0] >> (8 - cs))
+    n = (8 * len(e) + cs) // 11
+    wl = WORDLISTS.wordlist(lang)
+    return [wl[(v >> (11 * (n - 1 - i))) & 2047] for i in range(n)]
+
+
+def _o_bip85_apps(w):
+    """every application's derivation path, recomputed from the BIP text, on one root key and index."""
+    import base64
+    xprv, index = w["xprv"], w["index"]
+    P = "m/83696968h"
+    for lang, code in BIP85_LANGUAGE_TABLE.items():
+        for words, nbytes in ((12, 16), (15, 20), (18, 24), (21, 28), (24, 32)):
+            e = _bip85_entropy(xprv, f"{P}/39h/{code}h/{words}h/{index}h")[:nbytes]
+            got = bip85.mnemonic_from_root_key(xprv, words, lang, index).split()
+            if got != _ref_bip39_words(e, lang):
+                return False, (f"BIP39 application: {words} words in '{lang}' (BIP language code {code}') at index "
+                               f"{index} is not the sentence of {P}/39h/{code}h/{words}h/{index}h")
+    e = _bip85_entropy(xprv, f"{P}/2h/{index}h")
+    if bip85.wif_from_root_key(xprv, index) != _b58check(b"\x80" + e[:32] + b"\x01"):
+        return False, f"WIF application (2') at index {index}"
+    e = _bip85_entropy(xprv, f"{P}/32h/{index}h")
+    want = _b58check(bytes.fromhex("0488ade4") + b"\x00" + bytes(4) + bytes(4) + e[:32] + b"\x00" + e[32:])
+    if bip85.xprv_from_root_key(xprv, index) != want:
+        return False, f"XPRV application (32') at index {index}"
+    for n in w["hex_sizes"]:
+        if bip85.bytes_entropy_from_root_key(xprv, n, index) != _bip85_entropy(xprv, f"{P}/128169h/{n}h/{index}h")[:n]:
+            return False, f"HEX application (128169') {n} bytes at index {index}"
+    for n in w["pwd64"]:
+        e = _bip85_entropy(xprv, f"{P}/707764h/{n}h/{index}h")
+        if bip85.base64_password_from_root_key(xprv, n, index) != base64.b64encode(e).decode()[:n]:
+            return False, f"PWD BASE64 application (707764') length {n} at index {index}"
+    for n in w["pwd85"]:
+        e = _bip85_entropy(xprv, f"{P}/707785h/{n}h/{index}h")
+        if bip85.base85_password_from_root_key(xprv, n, index) != base64.b85encode(e).decode()[:n]:
+            return False, f"PWD BASE85 application (707785') length {n} at index {index}"
+    for sides, rolls in w["dice"]:
+        e = _bip85_entropy(xprv, f"{P}/89101h/{sides}h/{rolls}h/{index}h")
+        bits = (sides - 1).bit_length()
+        nb = (bits + 7) // 8
+        stream = hashlib.shake_256(e).digest(nb * (rolls * 40 + 64))
+        out, pos = [], 0
+        while len(out) < rolls:
+            t = int.from_bytes(stream[pos:pos + nb], "big") >> (8 * nb - bits)
+            pos += nb
+            if t < sides:
+                out.append(t)
+        if bip85.rolls_from_root_key(xprv, rolls, sides, index) != out:
+            return False, f"DICE application (89101') {rolls} rolls of {sides} sides at index {index}"
+    return True, f"index {index}"
 
 
 def _o_dispatch(w):
@@ -641,7 +793,7 @@ def _guarded(name, fn):
     return run
 
 
-ORACLES = {"slip39.kdf": _o_slip39_kdf, "dispatch.lang": _o_dispatch, "wordlist.bijection": _o_wordlist, "bip39.roundtrip": _o_bip39_roundtrip,
+ORACLES = {"electrum.version": _o_electrum_version, "bip85.apps": _o_bip85_apps, "slip39.kdf": _o_slip39_kdf, "dispatch.lang": _o_dispatch, "wordlist.bijection": _o_wordlist, "bip39.roundtrip": _o_bip39_roundtrip,
            "bip39.substitution": _o_bip39_substitution, "electrum.roundtrip": _o_electrum_roundtrip,
            "slip39.set": _o_slip39_set, "slip39.substitution": _o_slip39_substitution,
            "slip39.codec": _o_slip39_codec, "bip85.hmac": _o_bip85}
@@ -1015,6 +1167,38 @@ def run(ctx):
             pw = rng.choice(["", "x", "Pass Wörd"])
             seed_lines.append(f"electrum.seed {hx(electrum._normalize(m).encode())} "
                               f"{hx(electrum._normalize(pw).encode())} {hx(m.encode())} {hx(pw.encode())}")
+    # every seed type in every language electrum reads (CJK included), generated by the library: a refusal to
+    # generate, or a sentence that does not read back as asked, fails the oracle
+    for lang in ["ja", "zh", "en", "es", "pt"] + (["ko", "zh_tw", "fr"] if thorough else []):
+        for typ in ("standard", "segwit", "2fa", "2fa_segwit"):
+            if lang == "pt" and typ == "2fa":
+                continue          # 1626 words: the default entropy is 13 words, which "2fa" cannot be
+            e = (1 << 125) + rng.getrandbits(125)          # twelve words of a 2048-word list
+            ctx.check("electrum.roundtrip", {"lang": lang, "type": typ, "e": str(e), "pw": ""})
+            ctx.count("electrum.generated", f"{lang}:{typ}")
+    # ... and found independently of the library's generator: random sentences whose HMAC prefix is each version,
+    # at 12 / 13 / 24 words, written with a plain and with an ideographic space
+    for lang in ("ja", "zh"):
+        wl = electrum.ELECTRUM_WORDLISTS.wordlist(lang)
+        want = {("standard", 12): 1, ("segwit", 12): 1, ("2fa", 12): 2, ("2fa_segwit", 12): 1, ("2fa", 24): 1,
+                ("101", 13): 1}
+        for _ in range(200000):
+            if not any(want.values()):
+                break
+            nw = rng.choice([12, 12, 12, 12, 13, 24])
+            ws = [rng.choice(wl) for _ in range(nw)]
+            c = " ".join(ws)
+            sv = hmac.new(b"Seed version", ref_electrum_normalize(c).encode(), hashlib.sha512).hexdigest()
+            key = (ref_electrum_type(c), nw) if nw != 13 else (sv[:3], 13)
+            if want.get(key, 0) > 0:
+                want[key] -= 1
+                for sep in (" ", "\u3000"):
+                    cm = sep.join(ws)
+                    ctx.check("electrum.version", {"m": cm, "lang": lang})
+                    ctx.count("electrum.cjk", f"{lang}:{key[0]}:{nw}:{'ideographic' if sep != ' ' else 'plain'}")
+                    lines.append(f"electrum.type 0 {hx(ref_electrum_normalize(cm).encode())} {nw} {hx(cm.encode())}")
+        if any(want.values()):
+            raise common.HarnessError(f"electrum CJK search: classes not found for {lang}: {want}")
     # old-style and hex seeds for the version rule
     old = electrum.old_mnemonic_from_hex_seed(common.rand_bytes(rng, 16).hex())
     for c in [old, common.rand_bytes(rng, 16).hex(), "abandon " * 11 + "about"]:
@@ -1037,10 +1221,10 @@ def run(ctx):
         root = bip32.rootxprv_from_seed(common.rand_bytes(rng, 32))
         app = rng.choice([39, 2, 32, 128169, 707764, rng.getrandbits(20)])
         path = f"m/83696968h/{app}h/{rng.getrandbits(10)}h" + (f"/{rng.getrandbits(10)}h" if rng.random() < 0.5 else "")
-        words, lang, index = rng.choice([12, 15, 18, 21, 24]), rng.choice(list(bip85._LANGUAGE_INDEXES)), rng.getrandbits(8)
+        words, lang, index = rng.choice([12, 15, 18, 21, 24]), rng.choice(list(BIP85_LANGUAGE_TABLE)), rng.getrandbits(8)
         ctx.check("bip85.hmac", {"xprv": root, "path": path, "words": words, "lang": lang, "index": index})
         lines.append(f"bip85.entropy {hx(_child_key(root, path))} {root} {path}")
-        li = bip85._LANGUAGE_INDEXES[lang]
+        li = BIP85_LANGUAGE_TABLE[lang]
         k = _child_key(root, f"m/83696968h/39h/{li}h/{words}h/{index}h")
         lines.append(f"bip85.bip39 {hx(k)} {words} {root} {lang} {index}")
     lines.append(f"bip85.bip39 {hx(k)} 13 {root} en 0")
@@ -1056,6 +1240,18 @@ def run(ctx):
             ctx.check("bip85.hmac", {"xprv": root, "path": path})
             lines.append(f"bip85.entropy {hx(key)} {root} {path}")
     ctx.count("bip85.zero_leading_keys", "found", hits)
+    # every application, every language x word count, paths recomputed from the BIP text
+    for _ in range(ctx.n(2, 10)):
+        r2 = bip32.rootxprv_from_seed(common.rand_bytes(rng, 32))
+        ctx.check("bip85.apps", {"xprv": r2, "index": rng.getrandbits(rng.choice([1, 8, 20])),
+                                 "hex_sizes": [16, 64, rng.randrange(16, 65)], "pwd64": [20, 86, rng.randrange(20, 87)],
+                                 "pwd85": [10, 80, rng.randrange(10, 81)],
+                                 "dice": [[6, 10], [2, 5], [rng.randrange(2, 300), rng.randrange(1, 20)]]})
+    idx85 = rng.getrandbits(6)
+    for lang in list(BIP85_LANGUAGE_TABLE) + ["ru", "tr"]:
+        for words in (12, 15, 18, 21, 24) if lang in BIP85_LANGUAGE_TABLE else (12,):
+            lines.append(f"bip85.path {lang} {words} {idx85} {root}")
+    lines.append(f"bip85.path en 13 0 {root}")
     ctx.stream("bip85", lines)
 
     # --- dispatch: the BIP39 verdict is about the language the caller names ---------------------------------
